@@ -16,8 +16,8 @@ import time
 from typing import Any
 
 from . import common, tlc
-from .c03 import (_count, _detail_set, _short, _spec_violations, build_document, declared_op, enumerate_family, features, judge, primary,
-                  project_case, setup_env)
+from .c03 import (_count, _detail_set, _short, _spec_violations, build_document, declared_op, enumerate_family, features, judge, pmap,
+                  primary, project_case, setup_env)
 from .common import Ctx, Outcome, Violation
 from .encode import cps, encode_value, uncps
 
@@ -176,7 +176,7 @@ def run_property(ctx: Ctx, pid: str, family: str, jobs_for, n_label: str, sign, 
     _spec_violations(pid, res, out)
     jobs = [j for d in descs for j in jobs_for(d)]
     t1 = time.time()
-    results = common.pmap(_work, jobs)
+    results = pmap(_work, jobs)
     t_gen = time.time() - t1
     ops, obs, back = assemble(pid, jobs, results)
     dis, und, jres = judge(ctx, [], ops, obs)
